@@ -291,9 +291,13 @@ def run_one(ch, cfg):
     desc = "%s in state %s -> reply %r, link activity %s; reference %s" % (
         line[:300], state, rep, [e[0] for e in activity][:8], _v(ref))
     if observed[0] == "crash":
-        # C03's subject: no verdict - except that an invalid request reached the device
+        # no verdict at all (a reply without result code, the manager going down): that is C03's
+        # subject for arbitrary input; here it is reported where the documents prescribe a definite
+        # verdict for the value, and where an invalid request reached the device on the way
         if ref[0] == "reject" and activity:
             viol.append(("spec/device-contact-on-invalid:%s" % tag, desc))
+        elif ref[0] == "reject":
+            viol.append(("spec/no-verdict-for-invalid:%s" % tag, desc + " (%s)" % exc))
     elif ref[0] == "accept":
         if observed[0] != "accepted":
             viol.append(("spec/rejected-valid:%s" % tag, desc))
